@@ -411,6 +411,21 @@ func (w *W) extractCex(model map[string]uint64, nodes map[int]uint64) *Cex {
 		default:
 			c.Nondets[v.name] = strconv.FormatUint(val, 10)
 		}
+		var tid int
+		var kind string
+		if parts := strings.Split(v.name, "_"); len(parts) >= 3 {
+			kind = parts[1]
+			fmt.Sscanf(parts[2], "t%d", &tid)
+		}
+		if v.w == 32 {
+			// strings: literal symbols print as themselves, fresh symbols as a unique token
+			if s, ok := strNames[val]; ok {
+				c.Nondets[v.name] = s
+			} else {
+				c.Nondets[v.name] = fmt.Sprintf("s#%d", val)
+			}
+		}
+		c.NondetSeq = append(c.NondetSeq, NondetVal{Name: v.name, Thread: tid, Kind: kind, Value: c.Nondets[v.name], Pos: w.nondetPos[v.name]})
 	}
 	for k, v := range model {
 		if strings.HasPrefix(k, "clk_") || strings.HasPrefix(k, "pool_") || strings.HasPrefix(k, "sel_") || k == "nd_numcpu" {
@@ -419,8 +434,14 @@ func (w *W) extractCex(model map[string]uint64, nodes map[int]uint64) *Cex {
 	}
 	last := -1
 	for _, e := range w.trace {
-		if ev.eval(e.exec) != 0 {
-			c.Trace = append(c.Trace, TraceStep{Thread: e.thread, Round: e.round, Kind: e.kind, Pos: e.pos, Fn: e.fn})
+		if e.thread < len(w.threads) && ev.eval(e.exec) != 0 {
+			ts := TraceStep{Thread: e.thread, Round: e.round, Kind: e.kind, Pos: e.pos, Fn: e.fn}
+			for _, sp := range e.spawn {
+				if ev.eval(sp.take) != 0 {
+					ts.Spawn = sp.thread
+				}
+			}
+			c.Trace = append(c.Trace, ts)
 			if e.thread == last {
 				c.Bursts[len(c.Bursts)-1][1]++
 			} else {
